@@ -760,9 +760,24 @@ fn parametric_case(rng: &mut Rng, mon: &mut Monitor) {
     if let (Some(p), Some(c)) = (pids.first(), pi.constraints.first_mut()) {
         c.function = Some(f_linear(linear(vec![(*p, 1.0)], 0.0)));
     }
-    let fault = rng.below(7);
+    let fault = rng.below(9);
     let fname = match fault {
         0 => "valid",
+        7 => {
+            // constraint ids are unique across active AND removed constraints: two removed ones sharing an id
+            let f = Some(f_linear(linear(vec![], 1.0)));
+            pi.removed_constraints.push(removed(constraint(8_000_002, LE_ZERO, f.clone()), "a", Default::default()));
+            if rng.bool() {
+                pi.removed_constraints.push(removed(constraint(8_000_003, EQ_ZERO, f.clone()), "b", Default::default()));
+            }
+            pi.removed_constraints.push(removed(constraint(8_000_002, EQ_ZERO, f), "c", Default::default()));
+            "duplicate-constraint-id:removed/removed"
+        }
+        8 if !pi.constraints.is_empty() => {
+            let id = pi.constraints[0].id;
+            pi.removed_constraints.push(removed(constraint(id, LE_ZERO, Some(f_linear(linear(vec![], 1.0)))), "a", Default::default()));
+            "duplicate-constraint-id:active/removed"
+        }
         6 => {
             // the parametric rule speaks of the objective and the ACTIVE constraints only: a removed constraint
             // may mention an id that is neither a variable nor a parameter
@@ -855,7 +870,7 @@ impl Property for C08 {
         }
     }
     fn rule(&self) -> &'static str {
-        "each case takes one base instance (two of three from the harness generator with hints, dependencies, parameters, semi kinds, fixed values; one of three from the SDK's own proptest strategy), judges it, then applies EVERY single-fault mutation at EVERY position: duplicate a variable id (append / overwrite each other entry), duplicate a constraint id (active/active, active/removed, removed/removed), an undefined id at each term position of the objective / each constraint / each removed constraint, unset or unknown sense, absent objective, unset oneof, absent / unset constraint function, absent removed constraint, unspecified kind / equality, five invalid bound shapes per variable, eight hint faults, undefined dependency key, unset dependency function; then 10 random pairs of faults and up to 12 targeted pairs (an emptied removed entry + an undefined id in another removed constraint); plus one parametric-instance case (shared id, duplicate parameter, undefined id in objective / active constraint, duplicate constraint id; an undefined id that occurs only in a removed constraint is well-formed). An independent predicate decides the expected outcome of validate() and try_from (error kind, Instance field, and the context path, which may only name messages and fields on the way to the offending field of one violated rule of that kind); accepted messages are compared with the typed view through hook verif_parts. Non-trivial = every judged mutated message; distinct = fingerprint of the mutated message."
+        "each case takes one base instance (two of three from the harness generator with hints, dependencies, parameters, semi kinds, fixed values; one of three from the SDK's own proptest strategy), judges it, then applies EVERY single-fault mutation at EVERY position: duplicate a variable id (append / overwrite each other entry), duplicate a constraint id (active/active, active/removed, removed/removed), an undefined id at each term position of the objective / each constraint / each removed constraint, unset or unknown sense, absent objective, unset oneof, absent / unset constraint function, absent removed constraint, unspecified kind / equality, five invalid bound shapes per variable, eight hint faults, undefined dependency key, unset dependency function; then 10 random pairs of faults and up to 12 targeted pairs (an emptied removed entry + an undefined id in another removed constraint); plus one parametric-instance case (shared id, duplicate parameter, undefined id in objective / active constraint, duplicate constraint id among active, among removed and across the two lists; an undefined id that occurs only in a removed constraint is well-formed). An independent predicate decides the expected outcome of validate() and try_from (error kind, Instance field, and the context path, which may only name messages and fields on the way to the offending field of one violated rule of that kind); accepted messages are compared with the typed view through hook verif_parts. Non-trivial = every judged mutated message; distinct = fingerprint of the mutated message."
     }
     fn assumptions(&self) -> Vec<&'static str> {
         vec![
